@@ -15,7 +15,7 @@ P = "FimVerif.C09."
 THEOREMS = [P + t for t in (
     "atomic_addGNode", "atomic_nodeNew", "atomic_addNode", "atomic_setProps", "atomic_unsetProp", "atomic_rename",
     "atomic_ifaceNew_orphan", "atomic_ifaceNew", "atomic_addInterface", "atomic_linkNew", "atomic_addLink",
-    "atomic_connectInterface", "atomic_connectInterface_bogus", "atomic_addNetworkService", "atomic_nodeAddService",
+    "atomic_connectInterface", "atomic_connectInterface_bogus", "atomic_addNetworkService", "atomic_nodeAddService", "atomic_addComponent", "atomic_addStorage", "atomic_disconnectInterface", "atomic_removeInterface",
     "atomic_op", "addComponent_counterexample")]
 TRUSTED_BASE = [
     "Model/Topo.lean mirrors by hand the control flow of fim/user/{topology,node,component,network_service,interface,link}.py and the "
@@ -31,13 +31,15 @@ TRUSTED_BASE = [
     "Topo.step / TopoOp (the alphabet atomic_op quantifies over) wraps the same functions the driver calls, one constructor per request kind; "
     "the driver itself still dispatches on the request string",
     "hypotheses of the guarded theorems (Covered): node ids distinct and no dangling edge (Topo.IdsDistinct/Closed - invariants of reachable "
-    "models, proved for the primitives in C07), uuid freshness (FreshArgs), interface handles refer to ConnectionPoints, NameHyp (derived link name valid)",
+    "models, proved for the primitives in C07), uuid freshness (FreshArgs), interface handles refer to ConnectionPoints and carry no undrawn uuid",
 ]
 ASSUMPTIONS = [
     "single-threaded use; NetworkX backend (the API's default); names are ASCII",
-    "PARTIAL: atomic_op covers add_node, set/unset property, rename, add_interface, add_link, connect_interface, add_network_service (topology "
-    "and node level) with <= 1 interface; open: service creation with >= 2 interfaces (rollback induction), add_component/add_storage "
-    "(experiment flavour; substrate is a known finding with addComponent_counterexample), add_facility/add_switch, disconnect and all removals",
+    "PARTIAL: atomic_op (over Topo.step, which the driver dispatches through) covers add_node, set/unset property, rename, add_interface, "
+    "add_link, connect_interface, add_network_service (topology and node level, ANY number of interfaces, any exception kind), "
+    "add_component / add_storage with library-generated ids; outside Covered: add_component with caller-supplied service/interface ids "
+    "(known finding, addComponent_counterexample), add_facility, add_switch and the removals remove_node / remove_facility / remove_switch / "
+    "remove_link / remove_network_service (topology and node) / remove_component; disconnect_interface and remove_interface are covered",
     "not modelled (so outside the proved claim): peer/unpeer, add_child_interface/remove_child_interface, PortMirrorService, prune, "
     "comp_model= form of add_component, interface_labels other than empty Labels()",
     "'model' = the graph the store holds for the topology's graph id plus the _interfaces cache of the handle the call was made on; "
@@ -221,6 +223,47 @@ def systematic_cases(flavour):
         out.append(("add_link/bad-prop@%d" % pos, pre + [{"op": "add_link", "name": "lx", "nid": nid("lxid"), "ltype": "Patch",
                                                           "ifs": ["h3", "h6"], "kw": kw("link")}]))
         out.append(("set_props/bad-prop@%d" % pos, pre + [{"op": "set_props", "h": "h0", "kw": kw("node"), "single": False}]))
+    # None / '' / wrong-typed values among the keywords, with one rejected keyword at every other position, on every
+    # element kind (an implementation that unsets or writes the accepted ones first shows up here)
+    if not sub:
+        elems = pre + [{"op": "add_service", "name": "kwsvc", "nstype": "L2Bridge", "ifs": [], "kw": []},          # h15
+                       {"op": "add_link", "name": "kwlink", "ltype": "L2Path", "ifs": ["h3", "h6"], "kw": []}]     # h16
+        targets = [("node", "h0"), ("comp", "h2"), ("iface", "h3"), ("svc", "h15"), ("link", "h16")]
+    else:
+        elems = pre
+        targets = [("node", "h0"), ("comp", "h2"), ("iface", "h3")]
+    for kind, hk in targets:
+        goodkw = []
+        for x in T.GOOD_KW[kind]:
+            if x[0] not in [y[0] for y in goodkw]:
+                goodkw.append(x)
+        goodkw = goodkw[:2]
+        setup = elems + [{"op": "set_props", "h": hk, "kw": goodkw, "single": False}]
+        nones = [[x[0], ["none"]] for x in goodkw]
+        variants = {"none": nones, "none+empty": nones[:1] + [["details", ["str", ""]]],
+                    "none+wrongtype": nones[:1] + [[goodkw[1][0], ["int", 5]]]}
+        for vname, base in variants.items():
+            for bad in T.BAD_KW[kind][:2]:
+                if bad[0] in [b[0] for b in base]:
+                    continue
+                for pos in range(len(base) + 1):
+                    kwl = list(base)
+                    kwl.insert(pos, bad)
+                    out.append(("set_props/%s/%s@%d/%s" % (kind, vname, pos, bad[0]),
+                                setup + [{"op": "set_props", "h": hk, "kw": kwl, "single": False}]))
+            out.append(("set_props/%s/%s/unset-twice" % (kind, vname),
+                        setup + [{"op": "set_props", "h": hk, "kw": nones, "single": False},
+                                 {"op": "set_props", "h": hk, "kw": nones + [T.BAD_KW[kind][1]], "single": False}]))
+    for pos in range(2):
+        kwn = [["capacities", ["none"]]]
+        kwn.insert(pos, T.BAD_KW["node"][1])
+        out.append(("add_node/none+bad@%d" % pos, pre + [{"op": "add_node", "name": "nz", "nid": nid("nzid"), "site": "RENC", "ntype": "Server", "kw": kwn}]))
+        kws = [["labels", ["none"]]]
+        kws.insert(pos, T.BAD_KW["svc"][1])
+        out.append(("add_service/none+bad@%d" % pos, pre + [{"op": "add_service", "name": "sz", "nid": nid("szid"), "nstype": "L2Bridge", "ifs": ["h3"], "kw": kws}]))
+        kwi = [["labels", ["none"]]]
+        kwi.insert(pos, T.BAD_KW["iface"][0])
+        out.append(("add_facility/none+bad@%d" % pos, pre + [{"op": "add_facility", "name": "fz", "nid": nid("fzid"), "site": "RENC", "kw": kwi}]))
     out.append(("add_node/dup-name", pre + [{"op": "add_node", "name": "n1", "nid": nid("zz"), "site": "RENC", "ntype": "Server", "kw": []}]))
     out.append(("add_component/dup-name", pre + [{"op": "add_component", "parent": "h0", "name": "nic1", "nid": nid("zz"), "ctype": "GPU", "model": "RTX6000", "kw": []}]))
     out.append(("add_component/unknown-model", pre + [{"op": "add_component", "parent": "h0", "name": "gx", "nid": nid("zz"), "ctype": "GPU", "model": "Nope", "kw": []}]))
@@ -306,7 +349,7 @@ def correspondence(ctx, res):
     for fl in ("exp", "sub"):
         for tag, ops in systematic_cases(fl):
             hs.append(run_history(fl, ops))
-    n = ctx.scale(60, 300)
+    n = ctx.scale(45, 300)
     for i in range(n):
         fl = "exp" if i % 3 else "sub"
         hs.append(random_history(ctx, "corr/%d" % i, fl, ctx.scale(25, 40), 0.3))
@@ -333,7 +376,7 @@ def oracle(ctx, res, budget=None):
     for fl in ("exp", "sub"):
         for tag, ops in systematic_cases(fl):
             run_case(tag, fl, ops)
-    n = budget or ctx.scale(80, 450)
+    n = budget or ctx.scale(60, 450)
     for i in range(n):
         fl = "exp" if i % 3 else "sub"
         rng = ctx.sub_rng("oracle/%d" % i)
@@ -356,6 +399,25 @@ def oracle(ctx, res, budget=None):
 
 
 def search(ctx, res, broken):
+    # first: the cases on which implementation and model differed, through the property oracle itself
+    for link, detail in broken:
+        if link != "correspondence" or not isinstance(detail, list):
+            continue
+        for d in detail:
+            case = d.get("case") or {}
+            ops = case.get("ops")
+            if not ops:
+                continue
+            fl = "sub" if (case.get("line") or {}).get("fl") == "sub" else "exp"
+            try:
+                steps = run_history(fl, ops)
+            except Exception:
+                continue
+            for i, st in enumerate(steps):
+                res.evaluations += 1
+                check_step(st, res, {"flavour": fl, "ops": [x["op"] for x in steps[:i + 1]], "label": "correspondence-difference"})
+    if res.violations:
+        return
     oracle(ctx, res, budget=ctx.scale(600, 4000))
 
 
